@@ -1178,6 +1178,49 @@ def sweep_batch(args):
     return counts, fails
 
 
+# ------------------------------------------------------------------------------ hypothesis check
+def check_api_discipline(limit=None):
+    """The reader theorems assume that a per-type wire parser, whatever it returns or raises,
+    leaves the Parser inside the message, with its end as it found it and furthest not lower
+    (`api_disciplined`).  Run every specimen / truncation / octet substitution of the wire sweep
+    through cls.from_wire_parser on a real Parser and look at the object afterwards."""
+    s = load_seeds()
+    bad = []
+    n = 0
+    for e, p in sweep_probes(s, "wire"):
+        if limit is not None and n >= limit:
+            break
+        rdclass, rdtype, wire, cur, rdlen, oi = p
+        n += 1
+
+        def one():
+            parser = dns.wire.Parser(wire, cur)
+            cls = dns.rdata.get_rdata_class(dns.rdataclass.RdataClass.make(rdclass), dns.rdatatype.RdataType.make(rdtype))
+            with parser.restrict_to(rdlen):
+                before = (parser.current, parser.end, parser.furthest)
+                try:
+                    cls.from_wire_parser(rdclass, rdtype, parser, mk_origin(oi))
+                except Exception:  # noqa
+                    pass
+                after = (parser.current, parser.end, parser.furthest)
+                ok = (0 <= after[0] <= len(wire) and after[1] == before[1] and before[2] <= after[2] <= len(wire))
+                parser.current = parser.end  # leave restrict_to quietly
+                return ok, before, after
+
+        try:
+            val, exc, hung = guarded(one, PROBE_SECONDS)
+        except Exception:  # noqa
+            continue
+        if hung or exc is not None or val is None:
+            continue
+        ok, before, after = val
+        if not ok:
+            bad.append({"rdclass": rdclass, "rdtype": rdtype, "wire": wire.hex(), "before": before, "after": after})
+            if len(bad) >= 5:
+                break
+    return n, bad
+
+
 # ------------------------------------------------------------------------------ batch worker
 
 
